@@ -281,10 +281,10 @@ for cap in (0, 1, 33):
         UC("c08-vec-push-get-cap%d-cols%d" % (cap, cols), "boxcar", "vec_push_get::<%d,%d>()" % (cap, cols), {"C08": "quick"}, "bounded", VEC_FNS,
            "push;push;get(i): gap-free indices, read-your-writes (value and columns), nothing for unassigned indices, count == completed pushes",
            unwind=70, bound="2 pushes, initial capacity %d, %d column(s), lookups at 0..3,31,32,95,96; single thread" % (cap, cols), cost=6, timeout=1500)
-for (cap, cols, pre) in ((0, 1, 0), (1, 1, 30), (0, 2, 94), (0, 1, 100)):
-    UC("c08-vec-extend-get-cap%d-cols%d-pre%d" % (cap, cols, pre), "boxcar", "vec_extend_get::<%d,%d,%d>()" % (cap, cols, pre), {"C08": "quick"}, "bounded", VEC_FNS,
-       "[reserve PRE unfilled]; extend(reports 3, yields 0..3); push; get: indices reserved as reported, filled as yielded, unfilled read as nothing, next push continues gap-free (batch crosses a bucket boundary for PRE=30/94)",
-       unwind=70, bound="batch of 3 starting at index %d, capacity %d, %d column(s); single thread" % (pre, cap, cols), cost=8, timeout=1500)
+for (cap, cols, pre, actual) in ((0, 1, 0, 1), (0, 1, 0, 3), (1, 1, 30, 0), (1, 1, 30, 2), (1, 1, 30, 3), (0, 2, 94, 3), (0, 1, 100, 1)):
+    UC("c08-vec-extend-get-cap%d-cols%d-pre%d-act%d" % (cap, cols, pre, actual), "boxcar", "vec_extend_get::<%d,%d,%d,%d>()" % (cap, cols, pre, actual), {"C08": "quick"}, "bounded", VEC_FNS,
+       "[reserve PRE unfilled]; extend(reports 3, yields %d); push; get: indices reserved as reported, filled as yielded, unfilled read as nothing, next push continues gap-free (batch crosses a bucket boundary for PRE=30/94)" % actual,
+       unwind=70, bound="batch of 3 (yielding %d) starting at index %d, capacity %d, %d column(s); single thread" % (actual, pre, cap, cols), cost=8, timeout=1500)
 for rep in (1, 2):
     UC("c08-vec-extend-overreport-%d" % rep, "boxcar", "vec_extend_overreport_panics::<%d>()" % rep, {"C08": "quick"}, "bounded", VEC_FNS[:3],
        "extend with an ExactSizeIterator that reports %d item(s) but yields %d panics (the lie is caught) instead of writing to an index it never reserved" % (rep, rep + 1),
@@ -292,9 +292,9 @@ for rep in (1, 2):
 UC("c11-vec-extend-overreport-1", "boxcar", "vec_extend_overreport_panics::<1>()", {"C11": "quick"}, "bounded", VEC_FNS[:3],
    "extend with an iterator yielding one item more than reported panics instead of storing the surplus item in a slot the next push will overwrite (which would leak it)",
    unwind=70, bound="batch reporting 1, yielding 2; single thread", cost=6, timeout=1500, should_panic=True, no_cover=True)
-for (cap, pre) in ((0, 0), (1, 30), (0, 100)):
-    UC("c11-vec-drop-cap%d-pre%d" % (cap, pre), "boxcar", "vec_drop_exactly_once::<%d,%d>()" % (cap, pre), {"C11": "quick"}, "bounded", ["boxcar::Vec::drop", "boxcar::Bucket::dealloc"] + VEC_FNS[:3],
-       "[reserve PRE unfilled]; extend(reports 2, yields 0..2); push; drop(vec): each yielded/pushed item dropped exactly once, nothing dropped early",
+for (cap, pre, actual) in ((0, 0, 0), (0, 0, 2), (1, 30, 1), (1, 30, 2), (0, 100, 1), (0, 100, 2)):
+    UC("c11-vec-drop-cap%d-pre%d-act%d" % (cap, pre, actual), "boxcar", "vec_drop_exactly_once::<%d,%d,%d>()" % (cap, pre, actual), {"C11": "quick"}, "bounded", ["boxcar::Vec::drop", "boxcar::Bucket::dealloc"] + VEC_FNS[:3],
+       "[reserve PRE unfilled]; extend(reports 2, yields %d); push; drop(vec): each yielded/pushed item dropped exactly once, nothing dropped early" % actual,
        unwind=130, bound="history of <= 3 operations starting at index %d, capacity %d; single thread, no panics" % (pre, cap), cost=8, timeout=1500)
 UC("c08-boxcar-canary", "boxcar", "boxcar_canary()", {"C08": "quick", "C11": "quick"}, "bounded", [], "canary", unwind=40, expect="fail", no_cover=True)
 
@@ -313,9 +313,9 @@ SORT = [("insertion_sort", "insertion-sort", (6,), "sorted permutation"),
         ("par_quicksort", "par-quicksort", (5,), "sorted permutation and 'not cancelled' if the flag is never raised; flag raised before => cancelled, still a permutation")]
 for fn, tag, lens, what in SORT:
     for L in lens:
-        UC("c18-%s-%d" % (tag, L), "par_sort", "c18_%s::<%d>()" % (fn, L), {"C18": "quick"}, "bounded", ["par_sort::" + fn],
+        UC("c18-%s-%d" % (tag, L), "par_sort", "k18_%s::<%d>()" % (fn, L), {"C18": "quick"}, "bounded", ["par_sort::" + fn],
            "%s: %s" % (fn, what), unwind=L + 3, bound="every array of %d bytes, strict weak order = low 2 bits (ties with distinguishable payloads)" % L, cost=6, timeout=1500)
-UC("c18-canary", "par_sort", "c18_canary()", {"C18": "quick"}, "bounded", [], "canary", unwind=8, expect="fail", no_cover=True)
+UC("c18-canary", "par_sort", "k18_canary()", {"C18": "quick"}, "bounded", [], "canary", unwind=8, expect="fail", no_cover=True)
 
 # ---------------------------------------------------------------------------
 # code-point representation paths (character model + stubs)
@@ -421,23 +421,23 @@ for L in (2, 3, 4):
 # ---------------------------------------------------------------------------
 U32_FNS = ["utf32_str::has_ascii_graphemes", "Utf32Str::new", "Utf32String::from(&str|String|Box<str>|Cow)"]
 for L in (2, 3, 4):
-    UC("c17-ascii-decision-%d" % L, "utf32", "c17_ascii_decision::<%d>()" % L, {"C17": "quick"}, "bounded", U32_FNS[:1],
+    UC("c17-ascii-decision-%d" % L, "utf32", "k17_ascii_decision::<%d>()" % L, {"C17": "quick"}, "bounded", U32_FNS[:1],
        "has_ascii_graphemes(s) <=> s is ASCII and contains no CR LF, for every valid UTF-8 string of %d bytes" % L, unwind=L + 4, bound="all valid UTF-8 strings of exactly %d bytes" % L, cost=4)
 for L in (0, 2, 3):
-    UC("c17-constructors-ascii-%d" % L, "utf32", "c17_constructors_ascii::<%d>()" % L, {"C17": "quick"}, "bounded", U32_FNS,
+    UC("c17-constructors-ascii-%d" % L, "utf32", "k17_constructors_ascii::<%d>()" % L, {"C17": "quick"}, "bounded", U32_FNS,
        "ASCII text without CR LF: Utf32Str::new gives Ascii(original bytes); From<&str>, From<String>, From<Box<str>>, From<Cow> give equal content", unwind=L + 5, bound="all ASCII strings of %d bytes; unicode-segmentation feature OFF" % L, cost=6, features=NOSEG, timeout=1500)
 for L in (2, 3):
-    UC("c17-constructors-unicode-%d" % L, "utf32", "c17_constructors_unicode::<%d>()" % L, {"C17": "quick" if L == 2 else "thorough"}, "bounded", U32_FNS,
+    UC("c17-constructors-unicode-%d" % L, "utf32", "k17_constructors_unicode::<%d>()" % L, {"C17": "quick" if L == 2 else "thorough"}, "bounded", U32_FNS,
        "non-ASCII or CR LF text: code-point form; borrowed/owned/Cow/buffer-based constructors produce the same content", unwind=L + 5, bound="all valid UTF-8 strings of %d bytes that are not plain ASCII; unicode-segmentation feature OFF (graphemes() == chars())" % L, cost=8, features=NOSEG, timeout=1500)
 ACC_FNS = ["Utf32Str::len", "Utf32Str::is_empty", "Utf32Str::get", "Utf32Str::first", "Utf32Str::last", "Utf32Str::chars", "Chars::next", "Chars::next_back", "Utf32Str::slice", "Utf32Str::slice_u32"]
 for L in (0, 3, 4):
-    UC("c17-accessors-ascii-%d" % L, "utf32", "c17_accessors_ascii::<%d>()" % L, {"C17": "quick"}, "bounded", ACC_FNS,
+    UC("c17-accessors-ascii-%d" % L, "utf32", "k17_accessors_ascii::<%d>()" % L, {"C17": "quick"}, "bounded", ACC_FNS,
        "Utf32Str::Ascii: len, is_empty, get, first, last, chars (both directions), slice / slice_u32 for every range form agree with the content", unwind=L + 4, bound="every ASCII content of length %d, every valid range" % L, cost=4)
-    UC("c17-accessors-unicode-%d" % L, "utf32", "c17_accessors_unicode::<%d>()" % L, {"C17": "quick"}, "bounded", ACC_FNS,
+    UC("c17-accessors-unicode-%d" % L, "utf32", "k17_accessors_unicode::<%d>()" % L, {"C17": "quick"}, "bounded", ACC_FNS,
        "Utf32Str::Unicode: same", unwind=L + 4, bound="every char content of length %d, every valid range" % L, cost=4)
-UC("c17-owned-accessors-3", "utf32", "c17_owned_accessors::<3>()", {"C17": "quick"}, "bounded", ["Utf32String::len", "Utf32String::is_empty", "Utf32String::slice", "Utf32String::slice_u32"],
+UC("c17-owned-accessors-3", "utf32", "k17_owned_accessors::<3>()", {"C17": "quick"}, "bounded", ["Utf32String::len", "Utf32String::is_empty", "Utf32String::slice", "Utf32String::slice_u32"],
    "Utf32String accessors agree with Utf32Str's", unwind=8, bound="every char content of length 3, every valid range", cost=4)
-UC("c17-canary", "utf32", "c17_canary()", {"C17": "quick"}, "bounded", [], "canary", unwind=6, expect="fail", no_cover=True)
+UC("c17-canary", "utf32", "k17_canary()", {"C17": "quick"}, "bounded", [], "canary", unwind=6, expect="fail", no_cover=True)
 
 # ---------------------------------------------------------------------------
 # Verus: step functions extracted verbatim + row induction (unbounded)
